@@ -46,6 +46,30 @@ def replace_chain(fn: FuncInfo) -> List[Tuple[str, str]]:
                 and all(isinstance(a, ast.Constant) for a in n.args):
             out.append((n.lineno, n.col_offset, n.args[0].value,
                         n.args[1].value))
+    # table-driven form: `for a, b in PAIRS: x = x.replace(a, b)` with PAIRS
+    # a (module-level) display of constant pairs, applied in table order
+    for lp in walk_no_nested(fn.node):
+        if not (isinstance(lp, ast.For) and isinstance(
+                lp.target, ast.Tuple) and len(lp.target.elts) == 2
+                and all(isinstance(t, ast.Name) for t in lp.target.elts)):
+            continue
+        ta, tb = lp.target.elts[0].id, lp.target.elts[1].id
+        uses = [c for st in lp.body for c in ast.walk(st)
+                if isinstance(c, ast.Call) and isinstance(
+                    c.func, ast.Attribute) and c.func.attr == 'replace'
+                and len(c.args) == 2 and norm(c.args[0]) == ta
+                and norm(c.args[1]) == tb]
+        if not uses:
+            continue
+        tbl = lp.iter
+        if isinstance(tbl, ast.Name):
+            tbl = fn.module.assigns.get(tbl.id)
+        if isinstance(tbl, (ast.Tuple, ast.List)) and tbl.elts and all(
+                isinstance(e, (ast.Tuple, ast.List)) and len(e.elts) == 2
+                and all(isinstance(x, ast.Constant) for x in e.elts)
+                for e in tbl.elts):
+            for k, e in enumerate(tbl.elts):
+                out.append((lp.lineno, k, e.elts[0].value, e.elts[1].value))
     out.sort()
     pairs = [(a, b) for _, _, a, b in out]
     # one-pass form: x.translate(TABLE) with TABLE = str.maketrans({..}) at
